@@ -96,6 +96,9 @@ def main():
         res["ran"].append(democmd + " (clean tree) -> rc %d" % rc)
         rc, out = sh("git apply %s" % patch, cwd=wt)
         if rc != 0:
+            # the seed was made on a slightly older commit: try a 3-way apply
+            rc, out = sh("git apply --3way %s" % patch, cwd=wt)
+        if rc != 0:
             res["error"] = "patch does not apply: " + out[-500:]
             print(json.dumps(res, indent=1))
             return
